@@ -123,7 +123,13 @@ func symxC20State() {
 	symxNow = 50
 	A := symxNewNode(1)
 	remote := symxEvent(symxUpdate{kind: 1, key: 1, key2: 1, la: 40, tag: 2}, symxUpdate{kind: 0, key: 1, la: 41, tag: 3}, symxUpdate{kind: 2, key: 1, la: 42, tag: 4})
-	switch rt.Int("pair", 0, 3) {
+	switch rt.Int("pair", 0, 4) {
+	case 4: // a local removal beside the merge of a newer registration of the same session
+		A.st.NotifyMsg(symxEvent(symxUpdate{kind: 0, key: 0, la: 40, tag: 1}))
+		newer := symxEvent(symxUpdate{kind: 0, key: 0, la: 60, tag: 5})
+		symxPar(func() { A.st.SessionMetadatas().Delete("s") }, func() { A.st.NotifyMsg(newer) })
+		v := A.view()
+		rt.Assert(v.sess[0] == "c5", "C20.state.newer_registration_survives_a_concurrent_older_removal")
 	case 0:
 		symxPar(func() { A.st.Subscriptions().Create("s", []byte("m/a"), 1) }, func() { A.st.NotifyMsg(remote) })
 		v := A.view()
